@@ -1,16 +1,36 @@
 """C16 - a failed parse applies exactly the preceding statements; errors say where."""
+import io
+import tokenize
+
 import gin
 from gin import config as gc
 from vf import rt
 from vf import world
 
+TokErr = tokenize.TokenError
+
 GOOD = ['vw.dflt.a = %vwc.V0', 's/vw.dflt.b = %vwc.V1', 'vw.plain.a = [%vwc.V2, 7]']
+
+
+def M(text, scope, sel, param, val, label, off):
+  """A member of a (faulty) block that may / must have been applied: the flat statement used by the reference
+  run + its effect (scope, selector, parameter, value, config_str label, 0-based line offset in the statement)."""
+  return (text, (scope, sel, param, val, label, off))
+
+
+SRC_V3 = M('vw.src.v = 3', '', 'vw.src', 'v', 3, 'src.v', 1)
+S_SRC_V3 = M('s/vw.src.v = 3', 's', 'vw.src', 'v', 3, 's/src.v', 1)
+CONS_P3 = M('vw.cons.p = 3', '', 'vw.cons', 'p', 3, 'cons.p', 1)
+KWS_X1 = M('vw.kws.x = 1', '', 'vw.kws', 'x', 1, 'kws.x', 1)
+DENY_A1 = M('vw.deny_b.a = 1', '', 'vw.deny_b', 'a', 1, 'deny_b.a', 1)
+KWS_IND = M('vw.kws.ind = 1', '', 'vw.kws', 'ind', 1, 'kws.ind', 0)
+
 # (lines of the faulty statement, 0-based offset of the line the error must name,
 #  exception class, is_syntax)
 FAULTS = [
     (['vw.src.v = 1 +'], 0, SyntaxError, True),                       # bad value
     (['vw.src.v ='], 0, SyntaxError, True),                           # missing value
-    (['vw.src.v = [1, 2'], None, (SyntaxError, __import__('tokenize').TokenError), True),  # unbalanced
+    (['vw.src.v = [1, 2'], None, (SyntaxError, TokErr), True),        # unbalanced
     (['vw..src.v = 1'], 0, SyntaxError, True),                        # bad selector
     (['vw.src.nope = 1'], 0, ValueError, False),                      # unknown parameter
     (['vw.nosuch.x = 1'], 0, ValueError, False),                      # unknown configurable
@@ -26,10 +46,135 @@ FAULTS = [
     (['fam.p = 1'], 0, KeyError, False),                                # ambiguous short selector (binding)
     (['fam:', '  p = 1'], 0, KeyError, False),                          # ambiguous short selector (block header)
     (['vw.src.v = @fam()'], (0, 1), KeyError, False),                    # ambiguous reference (its own line may be named)
-    ([], None, None, False),                                          # no fault
+    ([], None, None, False),                                          # 18: no fault
+    # ---- the first token of the statement is rejected by the TOKENIZER (no location demanded: the statement
+    #      asks for one for semantic errors only) --------------------------------------------------------------
+    (['0x = 1'], None, (SyntaxError, TokErr), True),                  # 19 invalid number literal
+    (["'abc"], None, (SyntaxError, TokErr), True),                    # 20 unterminated string
+    (['"""abc'], None, (SyntaxError, TokErr), True),                  # 21 unterminated triple-quoted string (to EOF)
+    (['  vw.kws.ind = 1', ' vw.kws.ded = 2'], None, (SyntaxError, TokErr), True),   # 22 mis-dedented line after a good indented one
+    # ---- more semantic faults ----------------------------------------------------------------------------
+    (['vw.src.v = %K'], (0, 1), ValueError, False),                   # 23 ambiguous constant (its own line may be named)
+    (['vw.cons:', '  p = 3', '  q = @nosuch()'], (0, 2), ValueError, False),   # 24 unknown reference in a block member
+    (['vw.cons:', '  p = 3', '  q = @fam()'], (0, 2), KeyError, False),        # 25 ambiguous reference in a block member
+    (['vw.allow_a.b = 1'], 0, ValueError, False),                     # 26 parameter not in the allowlist
+    (['meth.a = 1'], 0, ValueError, False),                           # 27 method without its class name
+    # ---- include variants ---------------------------------------------------------------------------------
+    (['include 5'], None, SyntaxError, True),                         # 28 include of a non-string
+    (['include'], None, SyntaxError, True),                           # 29 bare include
+    (["include 'denied.gin'"], 0, PermissionError, False),            # 30 exists, but opening raises PermissionError
+    # ---- block-structure faults ---------------------------------------------------------------------------
+    (['vw.src:'], None, SyntaxError, True),                           # 31 header without a body (also at EOF)
+    (['vw.src: v = 1'], None, SyntaxError, True),                     # 32 header and member on one line
+    (['vw.src:', '  v = 3', '  a.b = 1'], None, SyntaxError, True),   # 33 dotted member name
+    (['vw.kws:', '  x = 1', "  include 'sib.gin'"], None, SyntaxError, True),   # 34 include as a member
+    (['s/vw.src:', '  v = 3', '  nope = 1'], (0, 2), ValueError, False),         # 35 scoped header, bad 2nd member
+    (['vw.deny_b:', '  a = 1', '  b = 2'], (0, 2), ValueError, False),           # 36 deny-listed member
+    (['vw.src:', '  v = 3', '', '  # c', '  nope = 1'], (0, 4), ValueError, False),   # 37 bad member after blank+comment
 ]
 NFAULT = len(FAULTS)
-FILES = [None, 'mid.gin', 'inner.gin']     # name of the file at include depth d (0 = the string)
+NOFAULT = 18
+TOKF = (19, 20, 21, 22)
+# what the faulty statement itself may have applied: a list of alternatives, each a list of members.
+#  - 10, 13 (as before): members before a semantically bad member took effect;
+#  - 22: the good indented statement before the mis-dedented line is a preceding statement;
+#  - faults inside a block added later: 'members before k' and 'no member of that block' are both accepted.
+ALTS = {10: [[SRC_V3]], 13: [[SRC_V3]], 22: [[KWS_IND]],
+        24: [[], [CONS_P3]], 25: [[], [CONS_P3]], 33: [[], [SRC_V3]], 34: [[], [KWS_X1]],
+        35: [[], [S_SRC_V3]], 36: [[], [DENY_A1]], 37: [[], [SRC_V3]]}
+ATTRS = {30: dict(errno=13, filename='denied.gin')}
+# skip_unknown: 1 = True, 2 = a list.  Faults that stop being faults (the statement is skipped) / combinations left out.
+SKIP_ARG = [False, True, ['vw.nosuch', 'no_such_module_xyz']]
+SKIPPED = {0: (), 1: (5, 9, 12), 2: (5, 12)}
+SKIP_OUT = {0: (), 1: (6, 24), 2: (9,)}   # value keeps an unknown-reference placeholder / import under a list: unspecified
+NPRE = 8
+NENTRY = 7
+
+
+class S(object):
+  """One statement of a file: lines, kind ('good' | 'fault' | 'include' | 'filler' | 'skipped'), effects."""
+
+  def __init__(self, lines, kind='good', eff=(), child=None):
+    self.lines, self.kind, self.eff, self.child = list(lines), kind, list(eff), child
+    self.line = self.file = None
+
+
+def _pre_stmts(pre, v0):
+  """Kinds of GOOD statement placed right before the fault."""
+  if pre == 1:    # a block whose last member directly precedes the fault; blank + comment line inside
+    return [S(['vw.kws:', '  blk1 = 31', '', '  # c', '  blk2 = 32'],
+              eff=[('', 'vw.kws', 'blk1', 31, 'kws.blk1', 1), ('', 'vw.kws', 'blk2', 32, 'kws.blk2', 4)])]
+  if pre == 2:    # macro bindings (plain and scoped)
+    return [S(['X = %vwc.V0'], eff=[('X', 'gin.macro', 'value', v0, 'X', 0)]),
+            S(['s/Y = 33'], eff=[('s/Y', 'gin.macro', 'value', 33, 's/Y', 0)])]
+  if pre == 3:    # imports
+    return [S(['import os']), S(['from os import path'])]
+  if pre == 4:    # a sibling include that succeeds
+    return [S(["include 'sib.gin'"], kind='include', child='sib.gin')]
+  if pre == 5:    # bracketed value over three lines
+    return [S(['vw.kws.ml = [51,', '  52,', '  53]'], eff=[('', 'vw.kws', 'ml', [51, 52, 53], 'kws.ml', 0)])]
+  if pre == 6:    # triple-quoted string containing newlines
+    return [S(["vw.kws.tq = '''a", 'b', "c'''"], eff=[('', 'vw.kws', 'tq', 'a\nb\nc', 'kws.tq', 0)])]
+  if pre == 7:    # re-binding of a key that an earlier good statement may have set
+    return [S(['vw.dflt.a = 61'], eff=[('', 'vw.dflt', 'a', 61, 'dflt.a', 0)])]
+  return []
+
+
+def _sib():
+  return [S(['vw.kws.sib = [41,', '  42]'], eff=[('', 'vw.kws', 'sib', [41, 42], 'kws.sib', 0)]),
+          S(['vw.kws.sib2 = 43'], eff=[('', 'vw.kws', 'sib2', 43, 'kws.sib2', 0)])]
+
+
+def _other():
+  return [S(['# other'], kind='filler'),
+          S(['vw.dflt.a = 11'], eff=[('', 'vw.dflt', 'a', 11, 'dflt.a', 0)]),
+          S(['vw.src.v = 12'], eff=[('', 'vw.src', 'v', 12, 'src.v', 0)]),
+          S(['vw.kws.keep = 13'], eff=[('', 'vw.kws', 'keep', 13, 'kws.keep', 0)])]
+
+
+def _denied_open(path):
+  raise PermissionError(13, 'denied', path)
+
+
+def _denied_exists(path):
+  return path == 'denied.gin'
+
+
+class _BytesLines(object):
+  """file-like object without .name whose readline() yields bytes"""
+
+  def __init__(self, text):
+    self._io = io.BytesIO(text.encode('utf8'))
+
+  def readline(self, *a):
+    return self._io.readline(*a)
+
+
+def _render(stmts):
+  return '\n'.join(l for s in stmts for l in s.lines) + '\n'
+
+
+def _walk(files, fname, chain, st):
+  """Execution order of the include tree up to the fault (model of 'the statements preceding it')."""
+  line = 1
+  for s in files[fname]:
+    s.line, s.file = line, fname
+    if s.kind == 'fault':
+      st['fault'] = (fname, line, list(chain))
+      return False
+    if s.kind == 'include':
+      if not _walk(files, s.child, chain + [(fname, line)], st):
+        return False
+    elif s.kind == 'good':
+      st['applied'].append(s)
+    line += len(s.lines)
+  return True
+
+
+def _apply(model, prov, eff, fname, line):
+  scope, sel, param, val, label, off = eff
+  model.setdefault((scope, sel), {})[param] = val
+  prov[label] = (fname, line + off)
 
 
 def snapshot():
@@ -40,17 +185,16 @@ def snapshot():
   return out
 
 
-def c16_fault(cont: bool, fault: int, pos: int, depth: int, lead: int, amb: bool, locked: bool,
-              v0: int, v1: int, v2: int) -> bool:
-  """
-  pre: 0 <= fault < 19 and 0 <= pos < 4 and 0 <= depth < 3 and 0 <= lead < 3
-  """
-  world.fresh()
-  fault = rt.pick(fault, NFAULT)
-  pos = rt.pick(pos, 4)
-  depth = rt.pick(depth, 3)
-  lead = rt.pick(lead, 3)
-  amb, locked, cont = rt.flag(amb), rt.flag(locked), rt.flag(cont)
+def _core(cont, fault, pos, depth, lead, amb, lockmode, v0, v1, v2,
+          floc=None, pre=0, prior=0, entry=0, skip=0):
+  # All arguments but v0..v2 are concrete here.
+  # lockmode: 0 unlocked, 1 finalized + unlock_config around the call, 2 finalized and NOT unlocked (then the
+  #           first binding statement in execution order is the failing one).
+  # floc:     include level of the file that holds the fault (None: the innermost = depth).
+  # `pre`:    kind of extra good statement right before the fault;  `prior`: state before the call;
+  # entry:    entry point;  skip: skip_unknown argument.
+  if floc is None:
+    floc = depth
   flines, errline, exc_cls, is_syntax = FAULTS[fault]
   if cont:
     # a backslash continuation right after the key / keyword: the statement still BEGINS on the first line
@@ -61,13 +205,31 @@ def c16_fault(cont: bool, fault: int, pos: int, depth: int, lead: int, amb: bool
       rt.discard()
   if not flines and pos:
     rt.discard()
-  rt.sig(('fault', cont, fault, pos, depth, lead, amb, locked), nontrivial=bool(flines))
+  if floc > depth or (floc < depth and (pos > 2 or not flines)):
+    rt.discard()
+  if fault in SKIP_OUT[skip]:
+    rt.discard()
+  if fault == 22 and pre == 1:
+    rt.discard()          # the indented good statement would read as one more member of the block before it
+  if lockmode == 2 and (flines or pre not in (0, 3) or floc != depth):
+    rt.discard()
+  if lockmode and entry in (4, 5):
+    rt.discard()
+  skipped = fault in SKIPPED[skip]
+  failing = (bool(flines) and not skipped) or lockmode == 2
+  rt.sig(('fault', cont, fault, pos, depth, lead, amb, lockmode, floc, pre, prior, entry, skip),
+         nontrivial=failing)
   for name, v in (('V0', v0), ('V1', v1), ('V2', v2)):
     gin.constant('vwc.' + name, v)
   with rt.native():
-    # ---- build the innermost text: 3 good statements with the fault at `pos` -----
-    body = [['', '# leading comment'][i % 2] for i in range(lead)]
-    stmt_line = {}
+    gin.constant('vwa.K', 1)
+    gin.constant('vwb.K', 2)
+    top = 'top.gin' if entry in (1, 4) else '<top>'
+    names = [top, 'mid.gin', 'inner.gin']      # name of the file at include depth d
+    shown = lambda fn: None if fn == '<top>' else fn
+    good_eff = [[('', 'vw.dflt', 'a', v0, 'dflt.a', 0)], [('s', 'vw.dflt', 'b', v1, 's/dflt.b', 0)],
+                [('', 'vw.plain', 'a', [v2, 7], 'plain.a', 0)]]
+
     def split_after_key(line):
       if not cont:
         return [line]
@@ -76,41 +238,119 @@ def c16_fault(cont: bool, fault: int, pos: int, depth: int, lead: int, amb: bool
         return [k + ' \\', '    = ' + v]
       k, v = line.split(' ', 1)
       return [k + ' \\', '    ' + v]
-    for i in range(4):
-      if i == pos and flines:
-        stmt_line['fault'] = len(body) + 1
-        body.extend(split_after_key(flines[0]) if len(flines) == 1 else flines)
-      if i < 3:
-        stmt_line[i] = len(body) + 1
-        body.extend(split_after_key(GOOD[i]))
-    inner_text = '\n'.join(body) + '\n'
-    files = {}
-    texts = {depth: inner_text}
-    inc_line = {}
+
+    def fault_stmt():
+      kind = 'skipped' if skipped else 'fault'
+      return S(split_after_key(flines[0]) if len(flines) == 1 else flines, kind=kind)
+
+    goods = [S(split_after_key(GOOD[i]), eff=good_eff[i]) for i in range(3)]
+    # ---- the innermost file: 3 good statements with (pre-kind statement +) the fault at `pos` ----------
+    inner = [S([['', '# leading comment'][i % 2]], kind='filler') for i in range(lead)]
+    if lockmode == 2:
+      goods[0].kind = 'fault'                   # the first binding of a locked configuration
+      inner += _pre_stmts(pre, v0) + goods
+    elif flines and floc == depth:
+      for i in range(4):
+        if i == pos:
+          inner += _pre_stmts(pre, v0) + [fault_stmt()]
+        if i < 3:
+          inner.append(goods[i])
+    else:
+      inner += (_pre_stmts(pre, v0) if not flines else []) + goods
+    files = {names[depth]: inner, 'sib.gin': _sib()}
     for d in range(depth - 1, -1, -1):
       # outer file: one statement before the include, one after it
-      if cont:
-        texts[d] = "vw.kws.pre%d = %d\n\ninclude \\\n    '%s'\nvw.kws.post%d = 1\n" % (d, d, FILES[d + 1], d)
+      st = []
+      if lockmode == 2:
+        st.append(S(['# no binding before the include'], kind='filler'))
       else:
-        texts[d] = "vw.kws.pre%d = %d\n\ninclude '%s'\nvw.kws.post%d = 1\n" % (d, d, FILES[d + 1], d)
-      inc_line[d] = 3
-    for d in range(1, depth + 1):
-      files[FILES[d]] = texts[d]
-    world.use_mem_fs(files)
-    prefix_good = [GOOD[i] for i in range(3) if i < pos] if flines else GOOD
-    rest_good = [GOOD[i] for i in range(3) if i >= pos] if flines else []
-  if locked:
+        st.append(S(['vw.kws.pre%d = %d' % (d, d)], eff=[('', 'vw.kws', 'pre%d' % d, d, 'kws.pre%d' % d, 0)]))
+      st.append(S([''], kind='filler'))
+      if d == floc and pos == 2:
+        st.append(S(["include 'sib.gin'"], kind='include', child='sib.gin'))
+      st.append(S(['include \\', "    '%s'" % names[d + 1]] if cont else ["include '%s'" % names[d + 1]],
+                  kind='include', child=names[d + 1]))
+      if d == floc:
+        # the fault sits in an OUTER file, after the (successful) include
+        st += _pre_stmts(pre, v0) + [fault_stmt()]
+        if pos == 1:
+          st.append(S(["include 'sib.gin'"], kind='include', child='sib.gin'))
+      st.append(S(['vw.kws.post%d = 1' % d], eff=[('', 'vw.kws', 'post%d' % d, 1, 'kws.post%d' % d, 0)]))
+      files[names[d]] = st
+    top_text = _render(files[top])
+    top_items = ['\n'.join(s.lines) for s in files[top]]      # one list element per statement (may be multi-line)
+    mem = dict((n, _render(s)) for n, s in files.items() if n != '<top>')
+    # ---- state before the call -------------------------------------------------------------------------
+    before = []                                # (statement, file shown in provenance or 'API')
+    if prior:
+      files['other.gin'] = _other()
+      mem['other.gin'] = _render(files['other.gin'])
+    if entry in (4, 5):
+      files['ok.gin'] = [S(['vw.kws.ok = 21'], eff=[('', 'vw.kws', 'ok', 21, 'kws.ok', 0)])]
+      mem['ok.gin'] = _render(files['ok.gin'])
+    world.use_mem_fs(mem)
+    gin.config.register_file_reader(_denied_open, _denied_exists)
+
+    def do_prior():
+      if prior == 1:
+        gin.parse_config_file('other.gin')
+      elif prior == 2:
+        gin.bind_parameter('vw.dflt.a', 11)
+        gin.bind_parameter('vw.src.v', 12)
+        gin.bind_parameter('vw.kws.keep', 13)
+    do_prior()
+    # ---- model: which statements precede the fault in execution order ----------------------------------
+    walk = dict(applied=[], fault=None)
+    if prior:
+      _walk(files, 'other.gin', [], walk)
+      if prior == 2:
+        for s in walk['applied']:
+          s.file = 'API'
+    n_prior = len(walk['applied'])
+    if entry in (4, 5):
+      _walk(files, 'ok.gin', [], walk)
+    completed = _walk(files, top, [], walk)
+    if completed == failing:
+      raise rt.HarnessError('model of the include tree disagrees with the fault table')
+    tail = []
+    if entry == 4 and completed:
+      tail = [S(['vw.kws.bind = 22'], eff=[('', 'vw.kws', 'bind', 22, 'kws.bind', 0)])]
+      tail[0].line, tail[0].file = 1, '<top>'
+    applied = walk['applied'] + tail
+    rest_good = [g for g in goods if g not in applied]
+    alts = ALTS.get(fault, [[]]) if (failing and lockmode != 2) else [[]]
+    if failing:
+      f_file, f_line, f_chain = walk['fault']
+  if lockmode:
     gin.finalize()
   # ---- the failing call --------------------------------------------------------------
   exc = None
   depth_before = len(gc._PARSE_CONTEXTS)
+  locked_before = bool(lockmode)
+  sk = SKIP_ARG[skip]
+
+  def enter():
+    if entry == 0:
+      gin.parse_config(top_text, skip_unknown=sk)
+    elif entry == 1:
+      gin.parse_config_file('top.gin', skip_unknown=sk)
+    elif entry == 2:
+      gin.parse_config(list(top_items), sk)
+    elif entry == 3:
+      gin.parse_config(io.StringIO(top_text), sk)
+    elif entry == 4:
+      gin.parse_config_files_and_bindings(['ok.gin', 'top.gin'], ['vw.kws.bind = 22'], skip_unknown=sk)
+    elif entry == 5:
+      gin.parse_config_files_and_bindings(['ok.gin'], list(top_items), skip_unknown=sk)
+    else:
+      gin.parse_config(_BytesLines(top_text), sk)
 
   def call():
-    if locked:
+    if lockmode == 1:
       with gin.unlock_config():
-        gin.parse_config(texts[0])
+        enter()
     else:
-      gin.parse_config(texts[0])
+      enter()
 
   try:
     with rt.native():
@@ -123,111 +363,271 @@ def c16_fault(cont: bool, fault: int, pos: int, depth: int, lead: int, amb: bool
         call()
   except Exception as e:
     exc = e
-  if gin.current_scope() != [] or gin.config_is_locked() != locked:
+  # a parse that succeeds through parse_config_files_and_bindings finalizes (locks) the configuration
+  locked_after = locked_before or (entry in (4, 5) and not failing)
+  if gin.current_scope() != [] or gin.config_is_locked() != locked_after:
     return rt.no('2: if gin.current_scope() != [] or gin.config_is_locked() != locked:')
   if len(gc._PARSE_CONTEXTS) != depth_before:
     return rt.no('3: if len(gc._PARSE_CONTEXTS) != depth_before:')
   got = snapshot()
-  # ---- reference: the prefix applied to a cleared configuration -----------------------
   with rt.native():
-    saved_cfg = {k: dict(d) for k, d in gc._CONFIG.items()}
-    saved_prov = {k: dict(d) for k, d in gc._CONFIG_PROVENANCE.items()}
-    gc._CONFIG.clear()
-    gc._CONFIG_PROVENANCE.clear()
-    was_locked = gin.config_is_locked()
-    gc._set_config_is_locked(False)
-    pre = ['vw.kws.pre%d = %d' % (d, d) for d in range(depth)]
-    post = ['vw.kws.post%d = 1' % d for d in range(depth)] if not flines else []
-    extra = []
-    if fault in (10, 11) and False:
-      pass
-    if fault in (10, 13):
-      extra = ['vw.src.v = 3']          # members before a semantically bad member took effect
-    gin.parse_config('\n'.join(pre + prefix_good + extra + post) + '\n')
-  want = snapshot()
+    prov_text = gin.config_str(show_provenance=True)
+    plines = prov_text.split('\n')
+  # ---- reference: the prefix applied to a cleared configuration, per accepted alternative -------------
+  chosen = None
+  why = None
+  for alt in alts:
+    with rt.native():
+      saved_cfg = {k: dict(d) for k, d in gc._CONFIG.items()}
+      saved_prov = {k: dict(d) for k, d in gc._CONFIG_PROVENANCE.items()}
+      gc._CONFIG.clear()
+      gc._CONFIG_PROVENANCE.clear()
+      was_locked = gin.config_is_locked()
+      gc._set_config_is_locked(False)
+      do_prior()
+      ref_lines = [l for s in applied[n_prior:] for l in s.lines] + [m[0] for m in alt]
+      gin.parse_config('\n'.join(ref_lines) + '\n')
+    want = snapshot()
+    with rt.native():
+      gc._CONFIG.clear()
+      gc._CONFIG.update(saved_cfg)
+      gc._CONFIG_PROVENANCE.clear()
+      gc._CONFIG_PROVENANCE.update(saved_prov)
+      gc._set_config_is_locked(was_locked)
+      # the explicit model of the same thing: effects of the statements, in execution order
+      model, prov = {}, {}
+      for s in applied:
+        for eff in s.eff:
+          _apply(model, prov, eff, s.file, s.line)
+      for m in alt:
+        _apply(model, prov, m[1], f_file, f_line)
+    why = _same_store(got, want)
+    if why is None:
+      why = _same_store(got, model)
+    if why is None:
+      with rt.native():
+        why = _same_prov(plines, prov, shown)
+    if why is None:
+      chosen = (model, prov)
+      break
+  if chosen is None:
+    return rt.no(why)
+  model = chosen[0]
   with rt.native():
-    gc._CONFIG.clear()
-    gc._CONFIG.update(saved_cfg)
-    gc._CONFIG_PROVENANCE.clear()
-    gc._CONFIG_PROVENANCE.update(saved_prov)
-    gc._set_config_is_locked(was_locked)
-  if set(got) != set(want):
-    return rt.no('4: if set(got) != set(want):')
-  for k in want:
-    if set(got[k]) != set(want[k]):
-      return rt.no('5: if set(got[k]) != set(want[k]):')
-    for pn in want[k]:
-      if not rt.same('val', got[k][pn], want[k][pn]):
-        return rt.no('6: if not rt.same("val", got[k][pn], want[k][pn]):')
-  with rt.native():
-    if not flines:
+    if not failing:
       if exc is not None:
         return rt.no('7: if exc is not None:')
+    elif lockmode == 2:
+      if not isinstance(exc, RuntimeError):
+        return rt.no('8b: a locked configuration rejects the first binding with RuntimeError')
+      bad = _check_where(str(exc), shown(f_file), [f_line], f_chain, shown)
+      if bad:
+        return rt.no(bad)
     else:
       if exc is None or not isinstance(exc, exc_cls):
         return rt.no('8: if exc is None or not isinstance(exc, exc_cls):')
+      for an, av in ATTRS.get(fault, {}).items():
+        if getattr(exc, an, None) != av:
+          return rt.no('8a: the exception keeps its attributes (errno / filename)')
       msg = str(exc)
-      fname = FILES[depth]
+      fname = shown(f_file)
       if errline is not None:
-        lines_ok = [stmt_line['fault'] + o for o in (errline if isinstance(errline, tuple) else (errline,))]
+        lines_ok = [f_line + o for o in (errline if isinstance(errline, tuple) else (errline,))]
         if is_syntax:
           if getattr(exc, 'lineno', None) not in lines_ok:
             return rt.no('9: if getattr(exc, "lineno", None) not in lines_ok:')
           if getattr(exc, 'filename', None) != fname:
             return rt.no('10: if getattr(exc, "filename", None) != fname:')
         else:
-          where = 'In file "%s", line ' % fname if fname else 'In bindings string line '
-          if not any((where + str(l) + '\n') in msg for l in lines_ok):
-            return rt.no('11: if not any((where + str(l) + "\n") in msg for l in lines_ok):')
-          if msg.count(where) != 1:
-            return rt.no('12: if msg.count(where) != 1:')
-          # ... and once for each level of the include chain
-          for d in range(depth):
-            fn = FILES[d]
-            w2 = ('In file "%s", line %d\n' % (fn, inc_line[d])) if fn else (
-                'In bindings string line %d\n' % inc_line[d])
-            if msg.count(w2) != 1:
-              return rt.no('13: if msg.count(w2) != 1:')
-    # ---- provenance of every surviving binding ---------------------------------------------
-    prov = gin.config_str(show_provenance=True)
-    loc = lambda d, l: '# Set in %s:%d:' % (FILES[d] or 'bindings string', l)
-    expect_prov = []
-    for i in range(3):
-      if (not flines) or i < pos:
-        expect_prov.append((loc(depth, stmt_line[i]), GOOD[i].split(' = ')[0].replace('vw.', '')))
-    for d in range(depth):
-      expect_prov.append((loc(d, 1), 'kws.pre%d' % d))
-    plines = prov.split('\n')
-    for tag, key in expect_prov:
-      hit = [i for i, l in enumerate(plines) if l.startswith(key + ' =')]
-      if __import__('os').environ.get('VERIF_EXPLAIN') and (len(hit) != 1 or plines[hit[0] - 1] != tag):
-        print('PROV', tag, key, hit, plines)
-      if len(hit) != 1 or plines[hit[0] - 1] != tag:
-        return rt.no('14: if len(hit) != 1 or plines[hit[0] - 1] != tag:')
+          bad = _check_where(msg, fname, lines_ok, f_chain, shown)
+          if bad:
+            return rt.no(bad)
     # ---- later parsing behaves as after the prefix alone -------------------------------------
-    if flines:
+    if failing:
       def go():
-        gin.parse_config('\n'.join(rest_good) + '\nvw.src2.v = 5\n')
-      if locked:
+        gin.parse_config('\n'.join(l for g in rest_good for l in g.lines) + '\nvw.src2.v = 5\n')
+      if locked_after:
         with gin.unlock_config():
           go()
       else:
         go()
+      for g in rest_good:
+        for eff in g.eff:
+          _apply(model, {}, eff, None, 0)
+      _apply(model, {}, ('', 'vw.src2', 'v', 5, 'src2.v', 0), None, 0)
   final = snapshot()
-  if flines:
+  if failing:
     for i in range(3):
       key = [('', 'vw.dflt'), ('s', 'vw.dflt'), ('', 'vw.plain')][i]
       if key not in final:
         return rt.no('15: if key not in final:')
-    if not (rt.same('a', final[('', 'vw.dflt')]['a'], v0) and
-            rt.same('b', final[('s', 'vw.dflt')]['b'], v1) and
+    if pre != 7 and not rt.same('a', final[('', 'vw.dflt')]['a'], v0):
+      return rt.no('16a')
+    if not (rt.same('b', final[('s', 'vw.dflt')]['b'], v1) and
             rt.same('p', final[('', 'vw.plain')]['a'][0], v2)):
       return rt.no('16: rt.same("p", final[("", "vw.plain")]["a"][0], v2)):')
     if final.get(('', 'vw.src2')) != {'v': 5}:
       return rt.no('17: if final.get(("", "vw.src2")) != {"v": 5}:')
+    why = _same_store(final, model)
+    if why is not None:
+      return rt.no('18: after the later parse: ' + why)
   return True
 
 
+def _same_store(got, want):
+  if set(got) != set(want):
+    return '4: if set(got) != set(want):'
+  for k in want:
+    if set(got[k]) != set(want[k]):
+      return '5: if set(got[k]) != set(want[k]):'
+    for pn in want[k]:
+      if not rt.same('val', got[k][pn], want[k][pn]):
+        return '6: if not rt.same("val", got[k][pn], want[k][pn]):'
+  return None
+
+
+def _same_prov(plines, prov, shown):
+  """config_str(show_provenance=True) attributes every binding to the statement that last set it."""
+  for label, (fn, line) in prov.items():
+    hit = [i for i, l in enumerate(plines) if l.startswith(label + ' =')]
+    if len(hit) != 1:
+      return '14: if len(hit) != 1 or plines[hit[0] - 1] != tag:'
+    above = plines[hit[0] - 1] if hit[0] else ''
+    if fn == 'API':
+      if above.startswith('# Set in'):
+        return '14b: a binding made through bind_parameter carries no "# Set in" comment'
+    elif above != '# Set in %s:%d:' % (shown(fn) or 'bindings string', line):
+      if __import__('os').environ.get('VERIF_EXPLAIN'):
+        print('PROV', label, fn, line, above)
+      return '14: if len(hit) != 1 or plines[hit[0] - 1] != tag:'
+  return None
+
+
+def _check_where(msg, fname, lines_ok, chain, shown):
+  """A semantic error names the file and the line of the offending statement, once per level of the chain."""
+  where = 'In file "%s", line ' % fname if fname else 'In bindings string line '
+  if not any((where + str(l) + '\n') in msg for l in lines_ok):
+    return '11: if not any((where + str(l) + "\n") in msg for l in lines_ok):'
+  if msg.count(where) != 1:
+    return '12: if msg.count(where) != 1:'
+  # ... and once for each level of the include chain
+  for fn, line in chain:
+    fn = shown(fn)
+    w2 = ('In file "%s", line %d\n' % (fn, line)) if fn else ('In bindings string line %d\n' % line)
+    if msg.count(w2) != 1:
+      return '13: if msg.count(w2) != 1:'
+  # ... and no level more than the chain has (e.g. a file that had already been left)
+  if msg.count('\n  In file "') + msg.count('\n  In bindings string line ') != len(chain) + 1:
+    return '13b: the message names exactly one location per level of the include chain'
+  return None
+
+
+def c16_fault(cont: bool, fault: int, pos: int, depth: int, lead: int, amb: bool, locked: bool,
+              v0: int, v1: int, v2: int) -> bool:
+  """
+  pre: 0 <= fault < 38 and 0 <= pos < 4 and 0 <= depth < 3 and 0 <= lead < 3
+  """
+  world.fresh()
+  fault = rt.pick(fault, NFAULT)
+  pos = rt.pick(pos, 4)
+  depth = rt.pick(depth, 3)
+  lead = rt.pick(lead, 3)
+  amb, locked, cont = rt.flag(amb), rt.flag(locked), rt.flag(cont)
+  return _core(cont, fault, pos, depth, lead, amb, 1 if locked else 0, v0, v1, v2)
+
+
+def c16_pre(fault: int, pre: int, pos: int, depth: int, lead: int, v0: int, v1: int, v2: int) -> bool:
+  """Kinds of good statement right before the fault (block, macros, imports, sibling include, multi-line values,
+  re-binding): the statement that precedes the fault is applied, with the right provenance line.
+
+  pre: 0 <= fault < 38 and 1 <= pre < 8 and 0 <= pos < 4 and 0 <= depth < 3 and 0 <= lead < 3
+  """
+  world.fresh()
+  fault = rt.pick(fault, NFAULT)
+  pre = rt.pick(pre, NPRE)
+  pos = rt.pick(pos, 4)
+  depth = rt.pick(depth, 3)
+  lead = rt.pick(lead, 3)
+  return _core(False, fault, pos, depth, lead, False, 0, v0, v1, v2, pre=pre)
+
+
+def c16_outer(fault: int, depth: int, floc: int, pos: int, pre: int, amb: bool, v0: int, v1: int, v2: int) -> bool:
+  """The fault sits in an OUTER file, after (pos 0), between (pos 1: another include follows) or after two
+  (pos 2) successful includes: the included files are applied completely, the chain has exactly floc levels.
+
+  pre: 0 <= fault < 38 and 1 <= depth < 3 and 0 <= floc < depth and 0 <= pos < 3 and 0 <= pre < 8
+  """
+  world.fresh()
+  fault = rt.pick(fault, NFAULT)
+  depth = rt.pick(depth, 3)
+  floc = rt.pick(floc, 2)
+  pos = rt.pick(pos, 3)
+  pre = rt.pick(pre, NPRE)
+  amb = rt.flag(amb)
+  if pre not in (0, 1, 4):
+    rt.discard()
+  return _core(False, fault, pos, depth, 1, amb, 0, v0, v1, v2, floc=floc, pre=pre)
+
+
+def c16_prior(fault: int, prior: int, pos: int, depth: int, pre: int, locked: bool,
+              v0: int, v1: int, v2: int) -> bool:
+  """A non-empty configuration before the call (1: an earlier parse_config_file binding vw.dflt.a, vw.src.v,
+  vw.kws.keep; 2: the same through bind_parameter, which records no provenance); the failing text re-binds some
+  of the keys before the fault and the faulty statement itself targets a bound key (faults on vw.src.v).
+
+  pre: 0 <= fault < 38 and 1 <= prior < 3 and 0 <= pos < 4 and 0 <= depth < 3 and 0 <= pre < 8
+  """
+  world.fresh()
+  fault = rt.pick(fault, NFAULT)
+  prior = rt.pick(prior, 3)
+  pos = rt.pick(pos, 4)
+  depth = rt.pick(depth, 3)
+  pre = rt.pick(pre, NPRE)
+  locked = rt.flag(locked)
+  if pre not in (0, 7):
+    rt.discard()
+  return _core(False, fault, pos, depth, 1, False, 1 if locked else 0, v0, v1, v2, pre=pre, prior=prior)
+
+
+def c16_entry(fault: int, entry: int, skip: int, pos: int, depth: int, amb: bool,
+              v0: int, v1: int, v2: int) -> bool:
+  """Other entry points of the failing call (1 parse_config_file, 2 list of strings - one element per statement,
+  3 StringIO, 4 parse_config_files_and_bindings with the fault in the 2nd file, 5 ... in the bindings, 6 a
+  nameless file object yielding bytes) and the skip_unknown argument (1 True, 2 a list).
+
+  pre: 0 <= fault < 38 and 0 <= entry < 7 and 0 <= skip < 3 and 0 <= pos < 4 and 0 <= depth < 3
+  """
+  world.fresh()
+  fault = rt.pick(fault, NFAULT)
+  entry = rt.pick(entry, NENTRY)
+  skip = rt.pick(skip, 3)
+  pos = rt.pick(pos, 4)
+  depth = rt.pick(depth, 3)
+  amb = rt.flag(amb)
+  if entry == 0 and skip == 0:
+    rt.discard()                               # that is c16_fault
+  return _core(False, fault, pos, depth, 1, amb, 0, v0, v1, v2, entry=entry, skip=skip)
+
+
+def c16_locked(entry: int, depth: int, lead: int, pre: int, cont: bool, amb: bool, prior: int,
+               v0: int, v1: int, v2: int) -> bool:
+  """A finalized configuration that is NOT unlocked: imports and includes before the first binding execute,
+  the first binding raises RuntimeError naming its line and the chain, nothing is bound, the lock stays.
+
+  pre: 0 <= entry < 4 and 0 <= depth < 3 and 0 <= lead < 3 and 0 <= pre < 2 and 0 <= prior < 3
+  """
+  world.fresh()
+  entry = rt.pick(entry, 4)
+  depth = rt.pick(depth, 3)
+  lead = rt.pick(lead, 3)
+  pre = 3 if rt.flag(pre >= 1) else 0
+  prior = rt.pick(prior, 3)
+  cont, amb = rt.flag(cont), rt.flag(amb)
+  return _core(cont, NOFAULT, 0, depth, lead, amb, 2, v0, v1, v2, pre=pre, prior=prior, entry=entry)
+
+
+_V = dict(v0=1, v1=2, v2=3)
+_ALLF = list(range(NFAULT))
 HARNESSES = {
     'c16_fault': dict(
         fn='c16_fault',
@@ -236,19 +636,108 @@ HARNESSES = {
         smoke=[dict(cont=False, fault=4, pos=2, depth=2, lead=1, amb=True, locked=True, v0=1, v1=2, v2=3),
                dict(cont=False, fault=0, pos=1, depth=1, lead=2, amb=False, locked=False, v0=1, v1=2, v2=3),
                dict(cont=True, fault=18, pos=0, depth=2, lead=0, amb=False, locked=False, v0=1, v1=2, v2=3),
-               dict(cont=True, fault=5, pos=3, depth=0, lead=0, amb=False, locked=False, v0=1, v1=2, v2=3)],
-        tiers={'quick': dict(split=dict(fault=list(range(NFAULT)), depth=[0, 1, 2]),
+               dict(cont=True, fault=5, pos=3, depth=0, lead=0, amb=False, locked=False, v0=1, v1=2, v2=3)] +
+              [dict(cont=False, fault=f, pos=1 + f % 3, depth=f % 3, lead=f % 2, amb=False, locked=False, **_V)
+               for f in TOKF],
+        tiers={'quick': dict(split=dict(fault=_ALLF, depth=[0, 1, 2]),
                              fixed=dict(lead=1), budget_s=100),
-               'thorough': dict(split=dict(fault=list(range(NFAULT)), depth=[0, 1, 2], lead=[0, 1, 2]),
+               'thorough': dict(split=dict(fault=_ALLF, depth=[0, 1, 2], lead=[0, 1, 2]),
                                 budget_s=300)},
-        bounds='3 good statements (values: all ints, through constants) + one of 18 faults (bad value, missing value, '
+        bounds='3 good statements (values: all ints, through constants) + one of 37 faults (bad value, missing value, '
                'unbalanced bracket, bad selector, unknown parameter / configurable / reference (on the 2nd line of its '
                'value), deny-listed parameter, bad include, bad import, semantically / syntactically bad block member, '
-               'block of an unknown configurable, a bad member between / before duplicate members of one block, an ambiguous short selector as binding target / block header / reference) at position 0-3, include depth 0-2, 0-2 leading blank/comment '
-               'lines, statements optionally written with a backslash continuation between the key / keyword and the rest, with/without an ambient scope, with/without a finalized config re-opened by unlock_config'),
+               'block of an unknown configurable, a bad member between / before duplicate members of one block, an '
+               'ambiguous short selector as binding target / block header / reference; a first token rejected by the '
+               'tokenizer (0x, unterminated string, unterminated triple-quoted string, mis-dedented line after a good '
+               'indented statement); ambiguous constant %K; unknown / ambiguous reference in a block member; parameter '
+               'not in the allowlist; method without class name; include of a non-string, bare include, include whose '
+               'reader raises PermissionError; block header without body / with a member on the same line, dotted '
+               'member name, include as a member, bad member under a scoped header, deny-listed member, bad member '
+               'after a blank and a comment line) at position 0-3, include depth 0-2, 0-2 leading blank/comment '
+               'lines, statements optionally written with a backslash continuation between the key / keyword and the '
+               'rest, with/without an ambient scope, with/without a finalized config re-opened by unlock_config'),
+    'c16_pre': dict(
+        fn='c16_pre',
+        anchors=['gin.config:parse_config', 'gin.config:parse_config_file', 'gin.utils:try_with_location',
+                 'gin.config_parser:_parse_binding_block', 'gin.config:bind_parameter'],
+        smoke=[dict(fault=22 + p, pre=p, pos=p % 4, depth=p % 3, lead=1, **_V) for p in range(1, NPRE)] +
+              [dict(fault=19, pre=6, pos=1, depth=1, lead=0, **_V), dict(fault=18, pre=1, pos=0, depth=0, lead=0, **_V)],
+        tiers={'quick': dict(split=dict(fault=_ALLF), fixed=dict(lead=1, pos=2), budget_s=100),
+               'thorough': dict(split=dict(fault=_ALLF, depth=[0, 1, 2], pos=[0, 1, 2, 3]), fixed=dict(lead=1),
+                                budget_s=300)},
+        bounds='as c16_fault (no continuation, no ambient scope, unlocked) with one of 7 kinds of good statement right '
+               'before the fault: a block with a blank and a comment line inside (provenance = the member\'s own '
+               'line), plain and scoped macro bindings, import / from-import, a sibling include of a two-statement '
+               'file, a bracketed value over three lines, a triple-quoted string over three lines, a re-binding of '
+               'vw.dflt.a; quick: position 2'),
+    'c16_outer': dict(
+        fn='c16_outer',
+        anchors=['gin.config:parse_config', 'gin.config:parse_config_file', 'gin.utils:try_with_location',
+                 'gin.utils:augment_exception_message_and_reraise'],
+        smoke=[dict(fault=30, depth=2, floc=0, pos=0, pre=0, amb=False, **_V),
+               dict(fault=31, depth=2, floc=1, pos=1, pre=4, amb=True, **_V),
+               dict(fault=32, depth=1, floc=0, pos=2, pre=1, amb=False, **_V)],
+        tiers={'quick': dict(split=dict(fault=_ALLF), fixed=dict(pre=0), budget_s=100),
+               'thorough': dict(split=dict(fault=_ALLF, depth=[1, 2]), budget_s=300)},
+        bounds='every fault kind placed in an OUTER file (level floc < depth <= 2) after one successful include, '
+               'between two, or after two (sibling include of a two-statement file), optionally after a good block / '
+               'sibling include (thorough), with/without an ambient scope: the included files are applied completely, '
+               'the statement after the fault and the following include are not, the error names exactly floc+1 levels'),
+    'c16_prior': dict(
+        fn='c16_prior',
+        anchors=['gin.config:parse_config', 'gin.config:parse_config_file', 'gin.config:bind_parameter',
+                 'gin.utils:try_with_location'],
+        smoke=[dict(fault=33, prior=1, pos=2, depth=1, pre=7, locked=False, **_V),
+               dict(fault=34, prior=2, pos=0, depth=0, pre=0, locked=True, **_V),
+               dict(fault=35, prior=1, pos=3, depth=2, pre=0, locked=False, **_V)],
+        tiers={'quick': dict(split=dict(fault=_ALLF), fixed=dict(depth=1, locked=False), budget_s=100),
+               'thorough': dict(split=dict(fault=_ALLF, prior=[1, 2], depth=[0, 1, 2]), budget_s=300)},
+        bounds='every fault kind at position 0-3 into a NON-EMPTY configuration (vw.dflt.a, vw.src.v, vw.kws.keep bound '
+               'by an earlier parse_config_file or by bind_parameter), the failing text re-binding vw.dflt.a once or '
+               'twice before the fault, the faulty statement targeting the bound vw.src.v: value and "# Set in" '
+               'comment belong to the last successful setter (no comment after bind_parameter); quick: depth 1, unlocked'),
+    'c16_entry': dict(
+        fn='c16_entry',
+        anchors=['gin.config:parse_config', 'gin.config:parse_config_file',
+                 'gin.config:parse_config_files_and_bindings', 'gin.config:_should_skip',
+                 'gin.utils:try_with_location'],
+        smoke=[dict(fault=[4, 36, 37][e % 3], entry=e, skip=0, pos=2, depth=e % 3, amb=False, **_V) for e in range(1, NENTRY)] +
+              [dict(fault=18, entry=4, skip=0, pos=0, depth=1, amb=False, **_V),
+               dict(fault=5, entry=0, skip=1, pos=1, depth=1, amb=False, **_V),
+               dict(fault=12, entry=5, skip=2, pos=1, depth=0, amb=True, **_V),
+               dict(fault=6, entry=1, skip=2, pos=1, depth=2, amb=False, **_V)],
+        tiers={'quick': dict(split=dict(fault=_ALLF), fixed=dict(pos=2, amb=False, depth=1), budget_s=100),
+               'thorough': dict(split=dict(fault=_ALLF, depth=[0, 1, 2]), fixed=dict(amb=False), budget_s=300)},
+        bounds='every fault kind through parse_config_file, parse_config(list with one element per statement), '
+               'parse_config(StringIO), parse_config_files_and_bindings (fault in the 2nd file: 1st file applied, '
+               'bindings not, not finalized; fault in the bindings), a nameless file object yielding bytes; '
+               'skip_unknown False / True / a list: unknown configurable (binding, block) and (True only) bad import '
+               'stop being faults, every other kind fails identically; quick: position 2, depth 1, no ambient scope'),
+    'c16_locked': dict(
+        fn='c16_locked',
+        anchors=['gin.config:parse_config', 'gin.config:parse_config_file', 'gin.config:bind_parameter',
+                 'gin.utils:try_with_location'],
+        smoke=[dict(entry=0, depth=2, lead=1, pre=1, cont=False, amb=True, prior=1, **_V),
+               dict(entry=1, depth=0, lead=0, pre=0, cont=True, amb=False, prior=0, **_V)],
+        tiers={'quick': dict(split=dict(depth=[0, 1, 2], entry=[0, 1, 2, 3]), fixed=dict(lead=1), budget_s=100),
+               'thorough': dict(split=dict(depth=[0, 1, 2], entry=[0, 1, 2, 3], lead=[0, 1, 2]), budget_s=300)},
+        bounds='a finalized configuration that is not unlocked, include depth 0-2 with no binding before the includes, '
+               'optionally imports before the first binding, 4 entry points, with/without continuation / ambient '
+               'scope / prior state'),
 }
+OUTSIDE = ('an unknown macro %nosuch is accepted by every parse entry point and only rejected by finalize() (no '
+           'statement fails): not a fault kind here; dynamic registration in the failing file; import of modules that '
+           'raise while importing; include cycles; \\r\\n / BOM / form-feed layouts (C03)')
 ASSUMPTIONS = ['the binding store is read through get_bindings(inherit_scopes=False) over the keys of the private '
                'gin.config._CONFIG; the parse-context depth through the private _PARSE_CONTEXTS',
                'interpretation (DESIGN.md section 9): a syntactic fault inside a block makes the block the failing '
                'statement; a semantic fault in member k leaves members < k applied; the line named for an unknown '
-               'reference may be the statement line or the reference line']
+               'reference may be the statement line or the reference line',
+               'for the block faults added later (24, 25, 33-37) both readings of "statement" are accepted: members '
+               'before the bad one applied (error may name the member line) or no member applied (error may name the '
+               'header line); never a member after it and never the loss of a statement before the block',
+               'errors raised by the tokenizer itself (TokenError / IndentationError, faults 19-22) and the syntax '
+               'errors added later (28, 29, 31-34) are not required to carry a location (the statement asks for one '
+               'for semantic errors); what they leave behind is checked like for every other fault',
+               'skip_unknown: an unknown reference kept as a placeholder (skip_unknown=True) and a bad import under a '
+               'list-valued skip_unknown are left out (the statement does not fix the outcome)']
